@@ -130,12 +130,14 @@ func CoordinatesHint(hint *Hint) int {
 	}
 
 	// Otherwise compute the real length/span.
+	// Each line of the hint (there are two of them when a temporary hint
+	// is shown below a persistent one) starts on a row of its own.
 	usedY := 0
-	lines := strings.Split(text, term.ClearLineAfter)
+	lines := strings.Split(text, term.ClearLineAfter+term.NewlineReturn)
 
-	for i, line := range lines {
-		x, y := strutil.LineSpan([]rune(line), i, 0)
-		if x != 0 {
+	for _, line := range lines {
+		x, y := strutil.LineSpan([]rune(line), 0, 0)
+		if x != 0 || y == 0 {
 			y++
 		}
 
